@@ -322,4 +322,16 @@ def walk (macf : MacF) (t : Topo) (dstAs now : Nat) (ignoreMacs : Bool) :
       | .scmpError e => some (.scmp curAs e, p1, steps + 1)
       | .drop => some (.dropped curAs, p1, steps + 1)
 
+/-! ## reversal (the reply path) -/
+
+/-- `StandardPath::try_reverse` on the field-level model (all segments reversed, CONS_DIR toggled,
+    pointers mirrored) -/
+def reversePath (p : Path) : Path :=
+  let lens := [p.seg0, p.seg1, p.seg2].filter (· != 0)
+  let r := lens.reverse
+  { currInf := p.infos.length - 1 - p.currInf, currHf := p.hops.length - 1 - p.currHf,
+    seg0 := r.getD 0 0, seg1 := r.getD 1 0, seg2 := r.getD 2 0,
+    infos := (p.infos.map (fun i => { i with consDir := !i.consDir })).reverse,
+    hops := p.hops.reverse }
+
 end ScionVerif.Router
